@@ -60,6 +60,8 @@ Inductive beh :=
 | Garbage                   (* bytes that are not HTTP *)
 | EmptyUri                  (* 200 with a JSON body instead of an upgrade *)
 | AcceptThenDrop (k : nat)  (* upgrade, k messages each way, then the server drops *)
+| AcceptThenHang (k : nat)  (* upgrade, k messages each way, then the server goes silent: it keeps the
+                               TCP connection but neither sends nor answers (not even a close frame) *)
 | Hang.                     (* request read, never answered: the handshake times out *)
 
 (* what the access endpoint does with one POST (ReconnectAuth only) *)
@@ -82,7 +84,28 @@ Inductive outcome :=
 
 (* Dial: Some k = established and later ended (returns nil), None = error *)
 Definition ws_result (b : beh) : option nat :=
-  match b with AcceptThenDrop k => Some k | _ => None end.
+  match b with AcceptThenDrop k | AcceptThenHang k => Some k | _ => None end.
+
+(* the server never ends the connection by itself: Dial sits in its writer loop until ctx.Done() *)
+Definition holds (b : beh) : bool :=
+  match b with AcceptThenHang _ => true | _ => false end.
+
+(* does the peer answer a close frame (gorilla's default close handler echoes it)? *)
+Definition peer_answers (b : beh) : bool :=
+  match b with AcceptThenHang _ => false | _ => true end.
+
+(* Dial's ctx.Done() branch while connected: write a close frame, then c.Close().  [DAwaitPeer]
+   (wait for the reader goroutine to see the peer's answer) is NOT in the code; it is in the
+   vocabulary so that the theorem "the connection is closed whatever the peer does" has content. *)
+Inductive dact := DSendClose | DAwaitPeer | DCloseConn.
+Definition dial_on_cancel : list dact := [DSendClose; DCloseConn].
+Fixpoint reaches_close (answers : bool) (acts : list dact) : bool :=
+  match acts with
+  | [] => false
+  | DCloseConn :: _ => true
+  | DSendClose :: r => reaches_close answers r
+  | DAwaitPeer :: r => answers && reaches_close answers r
+  end.
 
 (* the steps of ReconnectAuth before Dial: None = a uri was obtained *)
 Definition access_result (a : abeh) : option outcome :=
@@ -179,6 +202,17 @@ Definition seen_at_head (l : loopk) (ph : option phase) : bool :=
   | _, _ => false
   end.
 
+(* this scheduled attempt, once established, is kept open by the server *)
+Definition keeps (l : loopk) (ab : sbeh) : bool :=
+  match l with
+  | LPlain => holds (snd ab)
+  | LAuth => match access_result (fst ab) with None => holds (snd ab) | Some _ => false end
+  end.
+
+(* the loop does not get past this iteration: Dial neither fails nor ends while the context is live *)
+Definition blocked (l : loopk) (ab : sbeh) (ph : option phase) : bool :=
+  match ph with None => keeps l ab | Some _ => false end.
+
 Fixpoint run (l : loopk) (c : cfg) (i : nat) (s : st) (carry : Z) (sch : list sbeh) (cp : cancelpt)
   : list event :=
   match sch with
@@ -193,7 +227,7 @@ Fixpoint run (l : loopk) (c : cfg) (i : nat) (s : st) (carry : Z) (sch : list sb
           | LPlain => iter_plain c s0 carry (snd ab) ph
           | LAuth => iter_auth c s0 ab ph
           end in
-        evs ++ run l c (S i) s1 carry1 rest cp
+        evs ++ (if blocked l ab ph then [] else run l c (S i) s1 carry1 rest cp)
   end.
 
 Definition client (l : loopk) (c : cfg) (sch : list sbeh) (cp : cancelpt) : list event :=
